@@ -1148,6 +1148,21 @@ func (fr *frame) chanRecv(instr *ssa.UnOp, ch *Chan) Value {
 		v = e.zero(et)
 		ok = false
 	} else {
+		// vfBlockHook(f): the thread is about to block on an empty channel; f is the harness's scheduler — it lets
+		// other (recorded) goroutines run and says whether it did anything; the receive is retried while it does
+		if h, has := e.extra["block_hook"]; has && e.extra["in_block_hook"] == nil {
+			for tries := 0; tries < 64 && len(ch.buf) == 0 && !ch.closed; tries++ {
+				e.extra["in_block_hook"] = true
+				r := e.callValue(nil, h.(Value), nil)
+				delete(e.extra, "in_block_hook")
+				if t, isT := r.(*Term); !isT || !t.IsTrue() {
+					break
+				}
+			}
+			if len(ch.buf) > 0 || ch.closed {
+				return fr.chanRecv(instr, ch)
+			}
+		}
 		panic(pathEnd{"blocked", "receive from empty channel"})
 	}
 	if instr.CommaOk {
